@@ -154,6 +154,7 @@ func FillCoverage(c *Ctx, out *Outcome) {
 	cov["probe_counters"] = s.CountersWithPrefix(prefix + ".")
 	cov["world_tags"] = s.CountersWithPrefix("world_tag.")
 	cov["ambient_reads"] = s.CountersWithPrefix("ambient.")
+	cov["go_statements_seamed"] = c.Node.HasKind("go")
 	cov["violations_before_dedup"] = s.Get("violations_raw")
 	cov["unseamed_warnings"] = c.Node.Warnings
 	cov["seam_validation_worlds"] = s.Get("seam_validation_worlds")
